@@ -25,7 +25,7 @@ ASSUMPTIONS = ["member order is read from typing.get_args of the spelled union o
 ANCHORS = ['converters:UnionConverter.try_convert', 'converters:UnionConverter.collect_errors',
            'converters:UnionConverter.into_data', 'util:flatten_union_args', 'converters:UnionConverter.__init__']
 MIN_COUNTERS = {'quick': {'generic_union_checked': 5000, 'twin_union_checked': 5000, 'boundary_checked': 15000, 'hook_checked': 15000, 'winner_not_first': 1500, 'overlap_values': 2500,
-                          'serialise_checked': 4000}}
+                          'serialise_checked': 4000, 'generic_reversed_argument_classes': 300}}
 
 FAMILIES = {
     'numeric': ('bool', 'int', 'float', 'complex', 'decimal', 'fraction'),
